@@ -513,3 +513,28 @@ MANIFEST = dict(
     level_text='Theorems C05_one_write_one_read, C05_segmentation_irrelevant, C05_oversize_is_error, C05_no_interleave and C05_ws_whole_or_error are proved in Coq for every message list (lengths 0..limit), every segmentation of the byte stream, every reader buffer size, every number of writers and every schedule of their Write calls (no bound). The model (coq/Model/Record.v) is hand-written; on every run every single and every pair of cut positions of short exchanges, ~1500 seeded multi-cut exchanges, malformed streams, concurrent writers under the race detector and WebSocket exchanges over gorilla/websocket are executed on the real code and on the extracted model and compared; an independent oracle re-parses the wire.',
     level_note='Trusted: Coq kernel; extraction (ExtrOcamlBasic); net.Conn.Write is an atomic append and Read returns a prefix of the pending bytes (section hypothesis of the design, not modelled further); gorilla/websocket, net/http are black boxes; loopback TCP is not used (the in-memory conn dictates the segmentation instead).',
     design_ref='DESIGN.md section 6, C05')
+
+
+# ---- concurrency windows (tools/props/winlib.py): two writers on one connection, one parked inside the underlying Write
+import winlib
+
+TRUSTED = TRUSTED + ['schedule control of the window drivers: a goroutine is parked inside a call through a seam the harness owns (the underlying net.Conn of the WebSocketConn / TLSConn); "the other goroutine has returned or is blocked on a lock" is read off runtime.Stack wait states; outcomes are judged by the property predicate only']
+MANIFEST = dict(MANIFEST, level_note=MANIFEST['level_note'] + ' Concurrent writers: writer A parked inside the underlying Write while writer B writes, WebSocketConn in both roles and TLSConn (harness/common/c05_win_test.go); C05_ws_no_interleave is the theorem about the write mutex, that Write holds it is the generated obligation of Proofs/AtomWire.')
+_corr_before_windows = correspondence
+_replay_before_windows = replay
+
+
+def correspondence(ctx, verdict, pr):
+    res = _corr_before_windows(ctx, verdict, pr)
+    res['broken'] += winlib.c05_windows(ctx, verdict)
+    return res
+
+
+def replay(ctx, verdict):
+    if ctx.replay.get('kind') == 'window':
+        return winlib.replay(ctx, verdict)
+    return _replay_before_windows(ctx, verdict)
+
+
+def search(ctx, verdict, problems):
+    return winlib.search(ctx, verdict, problems)
